@@ -209,6 +209,19 @@ def _as_points(curve):
 
 
 def gen_source_spec(rng, name, swb, kinds=("generator", "genset", "fuel_cell_system", "coges")):
+    """A source the constructors accept (a generator behind a rectifier is a serial train whose product
+    curve the constructor checks for a monotone input-output map)."""
+    for _ in range(100):
+        spec = _gen_source_spec(rng, name, swb, kinds)
+        try:
+            build_electric_component(spec)
+            return spec
+        except Exception:
+            continue
+    return {"kind": "generator", "name": name, "swb": swb, "rated": 1000.0, "speed": 1000.0, "curve": [0.95]}
+
+
+def _gen_source_spec(rng, name, swb, kinds):
     k = str(rng.choice(list(kinds)))
     rated = float(rng.choice([250.0, 500.0, 1000.0, 2000.0, float(np.round(rng.uniform(100, 4000), 0))]))
     if k == "generator":
